@@ -9,6 +9,9 @@
 #![allow(clippy::all, dead_code)]
 
 use super::*;
+// explicit imports: do not rely on what the parent module happens to import
+#[allow(unused_imports)]
+use std::path::PathBuf;
 use ntp_proto::{NtpTimestamp, ObservableSourceTimedata, PollInterval};
 use serde_json::{Value, json};
 use std::collections::HashMap;
